@@ -510,6 +510,19 @@ def _rng_global(chk):
                             seeded = True
                 chk.check(seeded, "RNG.global", fn, c,
                           why=f"{ext}() is constructed without a seed that flows from the model's seed/random_state")
+                # a generator object has state: created at construction time and kept (on the object, or handed to a helper
+                # object built in the constructor) it is consumed a little further by every fit, so the second fit of
+                # one model no longer reproduces the first although the seed is the same
+                if fn.name == "__init__":
+                    kept = []
+                    for st in walk_no_nested(fn.node):
+                        tg = st.targets if isinstance(st, ast.Assign) else []
+                        for t in tg:
+                            if is_self_attr(t) and any(p.atom.kind == "call" and p.atom.node is c for p in ff.paths(st.value, spine_only=False)):
+                                kept.append(st)
+                    chk.check(not kept, "RNG.stateful", fn, kept[0] if kept else c, construct=f"{fn.qualname}: no generator object outlives the constructor",
+                              why=f"a generator built by {ext}() in the constructor is stored on the model (directly or inside an object the constructor builds): "
+                                  "each fit advances it, so refitting the same model with the same random_state gives different results")
             else:
                 chk.violation("RNG.global", fn, c,
                               why=f"{ext} draws from a global generator: results do not depend on random_state and differ between runs")
